@@ -151,6 +151,48 @@ func runC04(c *eng.Ctx) {
 		c.Check(len(p.Sites(cr, eng.CallTo("kv/version.CreateDeleteReferenceFile"))) == 1 && p.MustPass(cr, eng.CallTo(famT+".commitEditLog"), 0), "clean-is-one-commit", nil, cr, "cleaning records the delete-reference entries and commits them", "")
 	})
 
+	// ---- 5b. one rollup job per source family at a time ---------------------------------------------------------------------------------
+	c.Rule("ATOMIC", famT+".rollup{single flight}", func() { singleFlight(c, famT+".rolluping", famT+".rollup") })
+
+	// ---- 5c. the reference key written by the target is the key it is looked up / deleted by --------------------------------------
+	c.Rule("SYMMETRY", famT+"{reference key = (source store, source family id, file)}", func() {
+		isSrcID := func(v ssa.Value, src ssa.Value) bool {
+			cl, ok := v.(*ssa.Call)
+			return ok && cl.Common().IsInvoke() && cl.Common().Method.Name() == "ID" && cl.Common().Value == src
+		}
+		fromSrcStore := func(v ssa.Value, src ssa.Value) bool {
+			return eng.DependsOn(v, func(x ssa.Value) bool {
+				cl, ok := x.(*ssa.Call)
+				return ok && cl.Common().IsInvoke() && cl.Common().Method.Name() == "getStore" && cl.Common().Value == src
+			})
+		}
+		w := c.Fn(famT + ".doRollupWork")
+		src := ssa.Value(w.Params[1])
+		live := c.One(w, invokeOn(".familyVersion", "GetLiveReferenceFiles"), "GetLiveReferenceFiles(sourceStore)")
+		c.Check(fromSrcStore(eng.CallArgs(live.Instr.(*ssa.Call))[0], src), "lookup:store", live.Instr, w, "already-rolled-up files are looked up under the SOURCE store's name", "")
+		nl := 0
+		for _, b := range w.Blocks {
+			for _, in := range b.Instrs {
+				if l, ok := in.(*ssa.Lookup); ok && eng.DependsOn(l.X, func(x ssa.Value) bool { return x == live.Instr.(ssa.Value) }) {
+					nl++
+					c.Check(isSrcID(l.Index, src), fmt.Sprintf("lookup:family-id[%d]", nl), l, w, "… and under the SOURCE family's id", "index "+p.Desc(l.Index))
+				}
+			}
+		}
+		c.Check(nl == 1, "lookup:found", live.Instr, w, "the live references are indexed once", fmt.Sprintf("%d", nl))
+		for i, r := range c.Some(w, eng.CallTo("kv/version.CreateNewReferenceFile"), "CreateNewReferenceFile") {
+			a := eng.CallArgs(r.Instr.(*ssa.Call))
+			c.Check(fromSrcStore(a[0], src) && isSrcID(a[1], src), fmt.Sprintf("write:key[%d]", i), r.Instr, w,
+				"the reference is recorded under (source store, source family id): the key the next rollup looks it up by and cleanReferenceFiles deletes it by", "records ("+p.Desc(a[0])+", "+p.Desc(a[1])+")")
+		}
+		cr := c.Fn(famT + ".cleanReferenceFiles")
+		csrc := ssa.Value(cr.Params[1])
+		for i, r := range c.Some(cr, eng.CallTo("kv/version.CreateDeleteReferenceFile"), "CreateDeleteReferenceFile") {
+			a := eng.CallArgs(r.Instr.(*ssa.Call))
+			c.Check(fromSrcStore(a[0], csrc) && isSrcID(a[1], csrc), fmt.Sprintf("delete:key[%d]", i), r.Instr, cr, "the reference is deleted under (source store, source family id)", "deletes ("+p.Desc(a[0])+", "+p.Desc(a[1])+")")
+		}
+	})
+
 	// ---- 8. both ends by the same mapping ----------------------------------------------------------------------------------------------
 	c.Rule("SYMMETRY", mgT+".prepare{rollup target range}", func() {
 		pr := c.Fn(mgT + ".prepare")
